@@ -71,6 +71,19 @@ def toUnitary (g : Gate K) (n : Nat) : Outcome (Except GateErr (Mat K)) :=
       | .error e => .ok (.error e)
       | .ok m => (liftedGateMatrix m qs n defaultFuel).bind fun u => .ok (.ok u)
 
+/-- What `Gate::to_unitary(&mut self)` leaves in `self` after a successful call: `gate_matrix` removed every
+modifier, each `CONTROLLED` / `FORKED` dropped the first remaining qubit, each `FORKED` kept the second half of
+the parameters (`gate.parameters = p1`).  A second call on the same value therefore computes this gate. -/
+def consumeFields : List Modifier → List (Param K) → List Qubit → List (Param K) × List Qubit
+  | [], ps, qs => (ps, qs)
+  | .dagger :: ms, ps, qs => consumeFields ms ps qs
+  | .controlled :: ms, ps, qs => consumeFields ms ps qs.tail
+  | .forked :: ms, ps, qs => consumeFields ms (ps.drop (ps.length / 2)) qs.tail
+
+def Gate.consumed (g : Gate K) : Gate K :=
+  let r := consumeFields g.mods g.params g.qubits
+  { name := g.name, params := r.1, qubits := r.2, mods := [] }
+
 /-- `Gate::dagger` (gate.rs:155) -/
 def Gate.dagger (g : Gate K) : Gate K := { g with mods := .dagger :: g.mods }
 /-- `Gate::controlled` (gate.rs:162) -/
